@@ -17,7 +17,8 @@ From EC Require Import Lib.Outcome Lib.ListW Model.Msgs Model.Replica Model.Repl
   Proofs.ProtocolLive Proofs.ProtocolLiveInv Proofs.ProtocolLiveExample
   Proofs.ProtocolLiveCatch Proofs.ProtocolLiveNoStop Proofs.ProtocolLiveCommitStep
   Proofs.ProtocolLiveCommitLock Proofs.ProtocolLiveCommit Proofs.ProtocolLiveTimeoutStep
-  Proofs.ProtocolLiveTimeoutLock Proofs.ProtocolLiveTimeout Proofs.ProtocolLiveGoals.
+  Proofs.ProtocolLiveTimeoutLock Proofs.ProtocolLiveTimeout Proofs.ProtocolLiveTidy
+  Proofs.ProtocolLiveLockstep Proofs.ProtocolLiveGoals.
 From EC Require Proofs.ReplicaCaches Proofs.ReplicaJustified Proofs.ProtocolRefinesStep.
 Import ListNotations.
 Open Scope Z_scope.
@@ -362,6 +363,7 @@ Theorem C06G_view_times_out : forall P pay fetch, params_ok P -> env_ok P pay ->
   (honestb P L' = true ->
      exists tq p, vnum (tqview tq) = V /\
        justification_verify (p_g P) (p_e P) (p_C P) (JTimeout tq) = Ok tt /\
+       ProtocolRefinesStep.kt (honestb P) (g_soup s2) tq /\
        proposal_payload P pay (JTimeout tq) = Some p /\
        In {| m_key := L'; m_sig_ok := true; m_msg := MProposal p (JTimeout tq) |} (g_soup s2) /\
        (forall m p' j' mv', In m (g_soup s2) -> m_msg m = MProposal p' j' -> m_key m = L' -> m_sig_ok m = true ->
@@ -386,6 +388,61 @@ Theorem C06G_timeout_views_provenance : forall P s, preach P s -> forall k, n_al
   exists t, vnum (tview t) = v /\ In {| m_key := h; m_sig_ok := true; m_msg := MTimeout t |} (g_soup s).
 Proof. exact preach_TV. Qed.
 Print Assumptions C06G_timeout_views_provenance.
+
+(* (e) from a lockstep state: every honest node waits in view V with the blocks below n
+   stored; nothing above block n-1 is voted or certified; the network holds the single proposal
+   of an honest leader of V for the new block n, or no verifying proposal for V if that leader is
+   Byzantine.  If one of the leaders of V .. V+nbyz is honest, every honest node stores block n
+   within 2*(nbyz+1) rounds (each Byzantine leader costs exactly two rounds, the first honest
+   leader's view commits in two).  With (c) -- reaching a lockstep state from an arbitrary
+   reachable state, NOT proved -- this would give C06_progress_partial. *)
+Theorem C06G_progress_from_lockstep : forall P pay fetch (nbyz : nat), params_ok P -> env_ok P pay ->
+  forall s V n, preach P s -> headroom P s (Z.of_nat nbyz + 2) -> 0 < V -> lockstep P pay s V n ->
+  byz_run P V nbyz ->
+  exists r, (1 <= r <= nbyz + 1)%nat /\
+    forall k, honestb P k = true ->
+      up (sync_rounds P pay fetch (2 * r) s) k /\ n < height (sync_rounds P pay fetch (2 * r) s) k.
+Proof. exact progress_from_lockstep_holds. Qed.
+Print Assumptions C06G_progress_from_lockstep.
+
+Theorem C06G_lockstep_unfold : forall P pay s V n,
+  lockstep P pay s V n <->
+  (p_first P <= n /\
+   (forall k, honestb P k = true ->
+      up s k /\ hview s k = V /\ r_phase (n_live (g_node s k)) = Prepare /\ n <= r_store_next (n_live (g_node s k))) /\
+   ((forall q, ProtocolRefinesStep.gq (pcfg P 0) (honestb P) (g_soup s) q -> hnum (cprop (qmsg q)) < n) /\
+    (forall k, honestb P k = true ->
+       (forall c, r_high_vote (n_live (g_node s k)) = Some c -> hnum (cprop c) < n) /\
+       ((n = p_first P /\ r_high_cqc (n_live (g_node s k)) = None) \/
+        exists q, r_high_cqc (n_live (g_node s k)) = Some q /\ hnum (cprop (qmsg q)) = n - 1))) /\
+   (honestb P (cleader (pcfg P 0) V) = true -> proposal_on_network P pay s V n) /\
+   (honestb P (cleader (pcfg P 0) V) = false -> no_proposal P s V)).
+Proof. exact (fun P pay s V n => iff_refl _). Qed.
+Print Assumptions C06G_lockstep_unfold.
+
+(* a view with a Byzantine leader keeps the lockstep *)
+Theorem C06G_lockstep_timeout : forall P, params_ok P -> forall pay fetch, env_ok P pay -> forall Bs s V n,
+  Bs + 1 < U64.U64 -> preach P s -> 0 < V -> p_first P + V + 2 < U64.U64 -> V + 1 <= Bs ->
+  (forall m, In m (g_soup s) -> msg_view (m_msg m) <= Bs) ->
+  lockstep P pay s V n -> honestb P (cleader (pcfg P 0) V) = false ->
+  let s2 := sync_rounds P pay fetch 2 s in
+  preach P s2 /\ (forall m, In m (g_soup s2) -> msg_view (m_msg m) <= Bs) /\ lockstep P pay s2 (V + 1) n.
+Proof. exact lockstep_timeout. Qed.
+Print Assumptions C06G_lockstep_timeout.
+
+(* the block implied by a timeout certificate when nothing above block n-1 is voted or
+   certified: the new block n (no forced re-proposal), whatever the Byzantine entries report *)
+Theorem C06G_implied_tidy : forall P, params_ok P -> forall n s tq,
+  preach P s -> tqc_verify (p_g P) (p_e P) (p_C P) tq = Ok tt ->
+  ProtocolRefinesStep.kt (honestb P) (g_soup s) tq ->
+  (forall q, ProtocolRefinesStep.gq (pcfg P 0) (honestb P) (g_soup s) q -> hnum (cprop (qmsg q)) < n) ->
+  (forall h m, honestb P h = true -> In {| m_key := h; m_sig_ok := true; m_msg := MTimeout m |} (g_soup s) ->
+     tview m = tqview tq -> tidy_report P n m) ->
+  p_first P <= n ->
+  forall n' oh, get_implied_block (E := unit) true (p_C P) (p_first P) (JTimeout tq) = Ok (n', oh) ->
+  n' = n /\ oh = None.
+Proof. exact implied_tidy. Qed.
+Print Assumptions C06G_implied_tidy.
 
 (* ingredients of (d) *)
 (* through Layers A and B: a verifying commit certificate without forged signatures is for a
@@ -519,6 +576,12 @@ Example C06G_example_view_times_out :
 Proof. exact ex_view_times_out_hyps. Qed.
 Print Assumptions C06G_example_view_times_out.
 
+(* the state after the first round of the six-validator committee (validator 2 Byzantine) is a
+   lockstep state for view 1 and the first block, and the leader of view 2 is honest *)
+Example C06G_example_lockstep : lockstep ex_P6 ex_pay ex_s6 1 (p_first ex_P6) /\ byz_run ex_P6 1 1.
+Proof. exact ex_lockstep. Qed.
+Print Assumptions C06G_example_lockstep.
+
 (* a silent Byzantine leader costs one view: 6 validators, validator 2 Byzantine *)
 Example C06G_example_byz_leader :
   params_ok ex_P6 /\
@@ -540,6 +603,7 @@ Definition C06_sync_rounds_align := ProtocolLiveGoals.C06_sync_rounds_align.
    for R = 3; the statement that holds is C06G_view_commits above *)
 Definition C06_aligned_view_commits := ProtocolLiveGoals.C06_aligned_view_commits.
 Definition C06_aligned_view_commits' := ProtocolLiveGoals.C06_aligned_view_commits'.
-(* (e) and the full statement *)
+(* (e) and the full statement: proved from a lockstep state (C06G_progress_from_lockstep);
+   from an arbitrary reachable state they need (c) *)
 Definition C06_progress_partial := ProtocolLiveGoals.C06_progress_partial.
 Definition C06_full := ProtocolLiveGoals.C06_full.
